@@ -5,6 +5,8 @@ qm_c10 — driver for the renaming validator (M-Packaging). Requests:
   (check-renaming eA eB)         `checkRenamingExplain A B eA eB`        → ok consts=… fns=… tuples=… types=… builtins=… resources=…
                                                                           | reject <where> <why>
   (check-identity e)             `checkRenamingExplain A A e e`          → same (sanity: every program renames to itself)
+  (inject f V…)                  `injectCaptures A f caps`               → ok g=… fns=… instrs=(…) consts=(…) | none
+  (v2i V)                        `v2iA A v`                              → ok instrs=(…) consts=(…) | none
 The driver calls the definitions `Theorems/C10.lean` is about (`recover`, `validateB` through
 `checkRenamingExplain`; `C10.checkRenamingExplain_ok_iff` ties it to `checkRenaming`).
 -/
@@ -38,6 +40,28 @@ def c10Step (st : C10State) (req : List Sx) : C10State × String :=
   | [.list [.atom "check-identity", ea]] =>
     match st.a, ea.asNat with
     | some P, some e => (st, answer P P e e)
+    | _, _ => (st, "bad-request")
+  | [.list (.atom "inject" :: f :: caps)] =>
+    -- `Program::inject_function_captures(f, caps)` on slot A (model: `injectCaptures`)
+    match st.a, f.asNat, mapOpt parseVal caps with
+    | some P, some f, some caps =>
+      match injectCaptures P f caps with
+      | none => (st, "none")
+      | some (P2, g) =>
+        let instrs := match P2.fns[g]? with
+          | some G => " ".intercalate (G.instrs.map renderInstr)
+          | none => "?"
+        let consts := " ".intercalate (P2.consts.toList.map renderConst)
+        (st, s!"ok g={g} fns={P2.fns.size} instrs=({instrs}) consts=({consts})")
+    | _, _, _ => (st, "bad-request")
+  | [.list [.atom "v2i", v]] =>
+    -- `value_to_instructions_from_cache` on slot A (model: `v2iA`)
+    match st.a, parseVal v with
+    | some P, some v =>
+      match v2iA P v with
+      | none => (st, "none")
+      | some (P1, is) =>
+        (st, s!"ok instrs=({" ".intercalate (is.map renderInstr)}) consts=({" ".intercalate (P1.consts.toList.map renderConst)})")
     | _, _ => (st, "bad-request")
   | _ => (st, "bad-request")
 
